@@ -194,6 +194,24 @@ CLAIMED["C14"] = dict(
     technique="contract-based deductive verification of per-class semantic lemmas generated over the live subclass list (SMT) + bounded stand-in with reference evaluator",
 )
 
+CLAIMED["C25"] = dict(
+    category="proof",
+    text="The whole liveness solver stack is extracted from /repo and put under contract: Liveness.mark_live/mark_dead/meet/join, "
+         "LivenessAnalysis.visit_operation_impl (for operand/result lists of ANY length: R1, R2, monotone, exactness of every raise, every raised "
+         "lattice has its dependents enqueued)/set_to_exit_state, SparseBackwardDataFlowAnalysis.meet/get_lattice_element(_for)/visit_operation/visit, "
+         "DataFlowAnalysis.add_dependency/propagate_if_changed, DataFlowSolver.enqueue/propagate_if_changed/get_or_create_state/lookup_state, "
+         "AnalysisState.on_update, PropagatingLattice.on_update. On top of these callee contracts the run loop of DataFlowSolver.initialize_and_run is "
+         "verified with the inductive invariant 'every violated constraint is pending / every active op is registered with its result lattices / every "
+         "live lattice lies in every closed set / pending items are in the deque', with popleft modelled as removal of an ARBITRARY element: at exit "
+         "the live set is closed under the two rules of the statement and contained in every closed set, i.e. it is the least fixpoint whatever the "
+         "worklist order. Plus a bounded stand-in: real solver on generated programs under FIFO/LIFO/random schedules vs a reachability oracle.",
+    note="NOT proved: the initialisation phase (analysis.initialize) is assumed to establish the loop invariant (bounded stand-in only); the state table is "
+         "abstracted as a function LAT (justified by the discharged get_or_create_state contract); other analyses sharing the solver are assumed not to "
+         "touch Liveness lattices; termination; would_be_trivially_dead is C13's. pyvc + z3 trusted.",
+    design="§4 C25, §9",
+    technique="contract-based deductive verification: modular callee contracts + inductive loop invariant with ghost worklist view, SMT-discharged (z3/cvc5); bounded schedule-perturbing stand-in",
+)
+
 NOT_APPLICABLE = {
     "C04": "whole Printer∘Parser composition over every dialect: recursive string programs; no per-function contract within reach of the SMT-backed generator expresses it",
     "C05": "about 80 dialects of hand-written print/parse pairs and a format-string interpreter; same obstacle as C04",
@@ -207,7 +225,7 @@ NOT_APPLICABLE = {
     "C28": "result preservation of an e-graph pipeline: whole-program statement with no per-function postcondition implying it",
 }
 
-NOT_REACHED = ["C06", "C09", "C11", "C18", "C25"]
+NOT_REACHED = ["C06", "C09", "C11", "C18"]
 
 
 def main():
